@@ -606,7 +606,7 @@ class Pat:
                 kind = 'seq'
                 i += 2
                 if i + 1 < len(toks) and toks[i].text == ':' and toks[i].ws == '' and toks[i + 1].kind == 'ident' and toks[i + 1].ws == '' \
-                        and toks[i + 1].text in ('ident', 'tt', 'any', 'lit', 'seq', 'straight'):
+                        and toks[i + 1].text in ('ident', 'tt', 'any', 'lit', 'seq', 'straight', 'cond'):
                     kind = toks[i + 1].text
                     i += 2
                 self.items.append(('var', name, kind))
@@ -701,6 +701,9 @@ def match_at(pat, toks, i, hi):
             if t.kind == 'punct' and t.text in CLOSE:
                 return None
             if t.kind == 'punct' and t.text == ';' and not allow_semi:
+                return None
+            if kind == 'cond' and t.kind == 'punct' and t.text == '{':
+                # 'cond' = 'seq' without a top-level brace group (the condition of an if / while)
                 return None
             if t.kind == 'punct' and t.text in OPEN:
                 try:
